@@ -27,6 +27,7 @@ ASSUME = {
     "A-all": "A-all: async_utils::all / both, future::join / try_join_all, Result::map, collect() behave as their names say (true iff every future is; one result per element in order; fold of insert); the per-element closures are outlined and verified (R13)",
     "A-clap": "A-clap: clap's ArgMatches::is_present is an uninterpreted predicate of the flag name",
     "A-str": "A-str: str/Path/OsStr predicates (ends_with, starts_with, file_name, to_string_lossy, is_in_work_dir, matches_extensions) are uninterpreted functions; to_string_lossy is total",
+    "A-kani": "A-kani (bounded stand-in): async_std::path::Path is std::path::Path; anyhow!'s text is dropped; results hold within the stated bounds only",
     "A-notify": "A-notify: notify calls the handler for every event under a watched path that existed at watch() time",
     "A-yaml": "A-yaml: serde_yaml / clap parsing are not modelled; load_project is an arbitrary function returning Result<Project>",
     "A-arith": "A-arith: machine integers; Verus checks overflow on the usize/u64 arithmetic in scope",
@@ -68,6 +69,8 @@ PROPS = {
             "not_covered": ["not covered: notify itself, recursion into directories created later; the byte-level behaviour of the str predicates (bounded Kani harnesses in the KANI unit)"]},
     "C18": {"units": ["INC"], "level": "proof", "assume": INCA,
             "not_covered": ["not covered: injectivity of the state-file name formatting (string reasoning); canonicalisation of project directories (A-yaml side)"]},
+    "C19": {"units": ["CFG"], "level": "proof", "assume": CFGA + ["A-kani"], "kani_tags": ["C19.parse"],
+            "not_covered": ["not covered: list_all_available_target_names (iterator chains over string maps); the body of TargetId::try_parse is covered only by the bounded Kani harness try_parse_spec (when it could be run: see the evidence)"]},
     "C20": {"units": ["ACT", "RELAY"], "level": "proof", "assume": ACTORS,
             "not_covered": ["not covered: the metamorphic comparison of two real invocations"]},
 }
